@@ -24,7 +24,7 @@ Notation run_hist := (run_hist quote dflt stmts).
 Notation gov_step := (gov_step stmts).
 Notation gov := (gov stmts).
 Notation gov_flag := (gov_flag stmts).
-Notation op_ok := (op_ok quote stmts).
+Notation op_ok := (op_ok stmts).
 
 Definition cache_ok (c : cache) : Prop :=
   forall sid inc t, lookup sid c = Some (inc, t) -> compile_sym inc (stmts sid) = Ok t.
@@ -104,17 +104,24 @@ Qed.
 
 Lemma exec_scalar_default_spec : forall c sid dsid m, cache_ok c -> op_ok (ScalarDefault sid dsid m) = true ->
   snd (exec_scalar_default c sid dsid m) =
-    spec_scalar_default quote (flag_or c sid m) m (stmts sid) (stmts dsid).
+    spec_scalar_default quote dflt (flag_or c sid m) m (stmts sid) (stmts dsid).
 Proof.
-  intros c sid dsid m Hc Ho. cbn [SchemaTr.op_ok] in Ho. apply andb_prop in Ho. destruct Ho as [Ho Hp].
-  apply andb_prop in Ho. destruct Ho as [Hm Hf]. apply negb_true_iff in Hp.
+  intros c sid dsid m Hc Ho. cbn [SchemaTr.op_ok] in Ho. apply andb_prop in Ho. destruct Ho as [Hm Hf].
   pose proof (get_compiled_spec c sid m Hc) as G. unfold SchemaTr.exec_scalar_default, spec_scalar_default.
   destruct (get_compiled c sid m) as [[c' [[inc t]|]]|e]; cbn [snd].
   - destruct G as (He & -> & Ht & _). rewrite He.
     destruct (bracketed (stmts sid)) eqn:Hb.
-    + apply (bracket_rejected quote (flag_or c sid m)) in Hb. rewrite Hb in Ht. discriminate Ht.
-    + unfold SchemaTr.render_translates. destruct (has_none m && negb (flag_or c sid m)); [reflexivity|].
-      apply scan_plain, Hp.
+    { apply (bracket_rejected quote (flag_or c sid m)) in Hb. rewrite Hb in Ht. discriminate Ht. }
+    destruct (compile_sym (has_none m) (stmts dsid)) as [td|e] eqn:Ed; cbn [bind].
+    + assert (Hbd : bracketed (stmts dsid) = false).
+      { destruct (bracketed (stmts dsid)) eqn:Hb2; [|reflexivity].
+        apply (bracket_rejected quote (has_none m)) in Hb2. rewrite Hb2 in Ed. discriminate Ed. }
+      rewrite Hbd. unfold SchemaTr.render_translates.
+      destruct (has_none m && negb (flag_or c sid m)) eqn:Hn; [reflexivity|].
+      destruct (stmt_ok_parts dsid (has_none m)) as [H1 H2].
+      pose proof (render_sym_direct quote dflt m (stmts dsid) td H1 H2 Hf Hm Ed) as R.
+      unfold SchemaTr.render_translates in R. rewrite andb_negb_r in R. exact R.
+    + destruct (compile_sym_err quote _ _ _ Ed) as [-> Hb2]. rewrite Hb2. reflexivity.
   - destruct G as [_ He]. rewrite He. reflexivity.
   - destruct G as (-> & He & Hb & _). rewrite He, Hb. reflexivity.
 Qed.
@@ -231,7 +238,7 @@ Qed.
 
 Theorem history_scalar_default : forall pre sid dsid m post, op_ok (ScalarDefault sid dsid m) = true ->
   nth (length pre) (run_hist [] (pre ++ ScalarDefault sid dsid m :: post)) None
-  = Some (spec_scalar_default quote (gov_flag pre sid m) m (stmts sid) (stmts dsid)).
+  = Some (spec_scalar_default quote dflt (gov_flag pre sid m) m (stmts sid) (stmts dsid)).
 Proof.
   intros pre sid dsid m post Ho. rewrite run_hist_nth. cbn [SchemaTr.step].
   destruct (cache_after_inv pre [] cache_ok_nil) as [Hc _].
